@@ -23,6 +23,13 @@ against the real result.
 Regenerated on every run (`generated`): method-resolution table, attribute-kind table, and the table of instance
 attributes `_transform_inplace` rebinds on the private copy (`measure_writes`, all 8 classes x every transform
 class), with `decide` obligations in GenProps/C02.lean.
+
+TRANSLATED from the source text on every run (`harness/trans_c02.py`): the methods behind `Transform.apply` — value
+level (Generated/C02SrcV.lean, 17 methods / properties) and heap level (Generated/C02SrcH.lean, 9 methods: the same
+text read with the heap vocabulary) — with the obligations `translated = hand-written, for all arguments and heaps`
+in GenProps/C02SrcV.lean / C02SrcH.lean, which also restate the property theorems over the translated methods
+resolved through the regenerated table.  The error branches of the model (batch_size <= 0, WithDims index errors, a
+closure that raises part-way) are run against the real code in `error_branches` (driver ops `applye`, `wdims`).
 """
 import json
 
@@ -35,21 +42,49 @@ INFO = dict(
     technique="Lean 4 proof (value-level functional specification of apply for the 8 shape classes assembled from the "
               "regenerated method-resolution table, incl. batch_size, TransformChain, WithDims; heap-level refinement "
               "and frame theorems over a representation predicate that fixes EVERY attribute of every object of the "
-              "tree by its deep digest; invariant over arbitrary sequences of calls on shared objects) "
+              "tree by its deep digest; invariant over arbitrary sequences of calls on shared objects; the error "
+              "branches batch_size <= 0 / WithDims index errors / a closure that raises, with 'nothing that existed is "
+              "written' proved for calls that RAISE as well) "
+              "+ SOURCE-TO-LEAN TRANSLATION on every run (harness/trans_c02.py over harness/py2lean2.py + py2lean2x.py): "
+              "17 methods / properties at value level and 9 at heap level are translated from the source text of the "
+              "working tree and proved equal, for all arguments (and all heaps), to the definitions the theorems are "
+              "about; the property theorems are restated over the translated methods resolved through the regenerated "
+              "method-resolution table "
               "+ regenerated dispatch / attribute-kind / attribute-write obligations + model/implementation "
               "correspondence and a deep-digest oracle over shape class x landmark-group class x transform class x "
-              "coordinate storage (dtype, layout, aliasing, previous lives)",
+              "coordinate storage (dtype, layout, aliasing, previous lives), error branches included",
     level_text="Theorems over an executable model of Transform.apply / _apply_batched / Transformable._transform / "
                "Shape._transform_inplace / PointCloud._transform_self_inplace / LandmarkManager._transform_inplace / "
                "Copyable.copy and its LandmarkManager and LabelledPointUndirectedGraph overrides / "
                "TransformChain._apply / WithDims._apply / Homogeneous._apply, each method looked up in the "
-               "method-resolution table exactly as Python resolves it.  Value level: for every shape of the 8 classes "
+               "method-resolution table exactly as Python resolves it.  TRANSLATED, not transcribed: on every run the "
+               "source text of Transform.apply (nested closure, try / except AttributeError, default batch_size=None), "
+               "Transform._apply_batched (the loop over range, the slices, append, np.vstack), "
+               "Transformable._transform, Transformable._transform_inplace, Shape._transform_inplace, "
+               "Shape._transform_self_inplace, PointCloud._transform_self_inplace, LandmarkManager._transform_inplace "
+               "(the loop over the groups), Landmarkable.has_landmarks, Landmarkable.landmarks, "
+               "LandmarkManager.n_groups, TransformChain._apply (reduce), WithDims._apply, Homogeneous._apply, "
+               "Affine._apply, Affine.linear_component and Affine.translation_component is translated into Lean "
+               "(Generated/C02SrcV.lean: objects as values; Generated/C02SrcH.lean: the same text read with the heap "
+               "vocabulary - objects are cells, attribute assignment is a write, the closure allocates, a call may "
+               "raise and hands the heap back) and proved equal to the hand-written definitions for all arguments, all "
+               "callee functions and all heaps (GenProps/C02SrcV.lean, C02SrcH.lean: 46 obligations; the proofs unfold, "
+               "normalise and split cases, so renamed temporaries, reordered independent statements, inverted tests "
+               "keep them and a dropped branch, a swapped argument, an off-by-one break them).  The heap-level "
+               "methods as the source states them, resolved through the table, ARE the model's applyH on every heap "
+               "(hTransform_eq), so every heap theorem is a theorem about them; the value-level entry point agrees "
+               "with the model applyT on shapes of all classes and on bare arrays (vApply_agrees).  "
+               "Value level: for every shape of the 8 classes "
                "with landmark groups nested to any depth and every array function f, apply succeeds and returns the "
                "same class, points f(points), every group at every depth with points f(group points), all other "
                "attributes and the group names verbatim; it agrees with apply on the bare array; identity and "
                "composition laws; with batch_size the same holds with f = _apply_batched(f, k), which equals f for "
                "every transform that treats points one by one; a TransformChain applied to a shape equals its members "
-               "applied to the shape one after the other; WithDims slices the points of every group alike.  Heap "
+               "applied to the shape one after the other; WithDims slices the points of every group alike.  Error "
+               "branches: apply(x, batch_size <= 0) raises ValueError exactly when some array of the tree has points "
+               "and otherwise equals apply(x) (apply_nonpos_batch); WithDims with an index outside [-n_dims, n_dims) or "
+               "a mask of the wrong length raises IndexError, negative in-range indices, masks and a single integer "
+               "select what numpy selects (withDimsE_*); there is never a partial result.  Heap "
                "level: for EVERY heap on which an address holds such a shape (arbitrary layout and sharing; every "
                "attribute - arrays, dicts of masks, the tcoords PointCloud, the texture Image with its own landmark "
                "manager - fixed by its deep digest), the heap after the call is the heap before plus new cells "
@@ -57,7 +92,11 @@ INFO = dict(
                "transform), the result is a new object holding the mapped shape with every other attribute of every "
                "object of the tree deep-equal to the input's, at every depth; the same for "
                "transform.apply(landmark_manager); and as an invariant by induction over arbitrary sequences of calls "
-               "on initial objects that share whatever they share and on earlier results.  copy alone preserves the "
+               "on initial objects that share whatever they share and on earlier results.  With an ARBITRARY closure "
+               "(one that raises on some array: batch_size <= 0, a bad WithDims index, a point outside a "
+               "piecewise-affine domain) and an ARBITRARY outcome the call still writes no cell that existed, and "
+               "after a raising call the input holds the shape it held (h_apply_frame_any, h_apply_raise_intact).  "
+               "copy alone preserves the "
                "deep digest of any value on any heap under any method-resolution table.  Kernel-checked witnesses show "
                "that with LandmarkManager.copy not overriding Copyable.copy the same call would write into the caller's "
                "landmark groups; GenProps/C02.lean re-proves on every run that the live classes resolve the four "
@@ -65,34 +104,48 @@ INFO = dict(
                "that the attributes the live _transform_inplace rebinds on the private copy (measured on all 8 classes "
                "x every transform class) are exactly those the heap model rebinds, with no array buffer written in "
                "place.  Tied to /repo by running every shape class (2-D, 3-D, 0-3 landmark groups of all 8 classes, "
-               "nested up to three deep; float64/float32/int64/int32 coordinates; C / Fortran / strided / read-only / "
+               "nested up to three deep; zero-point groups first / in the middle / last; float64/float32/int64/int32 "
+               "coordinates; C / Fortran / strided / read-only / "
                "caller-owned arrays; groups aliased inside the manager or sharing the host's array; shapes that are "
                "results of earlier transforms) under every transform class with and without batch_size and diffing "
                "against the Lean driver, which cuts and stacks the batches itself and evaluates homogeneous matrices, "
-               "chains of them and WithDims exactly; an independent oracle decides the property on the real code.",
+               "chains of them and WithDims exactly; the error branches (batch_size 0 / negative, WithDims indices and "
+               "masks, piecewise affine outside its domain) are run on the real code and through the methods as the "
+               "source states them (driver op applye: same outcome, same exception kind, no old cell written); an "
+               "independent oracle decides the property on the real code.",
     level_note="Trusted: Lean kernel; axioms propext/Classical.choice/Quot.sound; Python harness and extractor; driver "
-               "parser.  Contract parameter (not verified, checked on every case by the oracle and on every run by the "
+               "parser; the source-to-Lean translator (harness/py2lean2.py, py2lean2x.py) and the C02 vocabulary "
+               "(harness/trans_c02.py: which Lean term a Python expression of the vocabulary stands for; "
+               "Core/C02Src.lean, Core/C02SrcH.lean: the meaning of those terms and the resolvers vApply / hTransform "
+               "that look a method up in the table) - a rule that mistranslated a construct would make an obligation "
+               "speak about something else; the correspondence runs on the same methods and would disagree.  "
+               "Contract parameter (not verified, checked on every case by the oracle and on every run by the "
                "regenerated write table): a transform's _apply is a function of the array it is given, returns a new "
-               "array and writes neither into its argument nor into the transform.  Modelled, not verified: CPython "
-               "attribute lookup and dict iteration order; numpy arrays as immutable-content cells that are only ever "
-               "replaced; float rounding (points are compared to the same float computation on the bare array, and for "
-               "the homogeneous family, chains of it and WithDims to the exact rational result within 1e-9).",
+               "array (or raises) and writes neither into its argument nor into the transform.  Modelled, not verified: "
+               "CPython attribute lookup and dict iteration order; numpy arrays as immutable-content cells that are "
+               "only ever replaced; float rounding (points are compared to the same float computation on the bare "
+               "array, and for the homogeneous family, chains of it and WithDims to the exact rational result within "
+               "1e-9).  x.copy() is the model's copy at heap level (translating Copyable.copy belongs to C06).",
     rule="a case = one (shape, transform, batch_size) triple: shape class x n_dims x 0-3 landmark groups (each of one of "
          "the 8 classes, possibly with groups of their own, up to depth 3) x coordinate storage x transform class "
          "with dyadic / rational-circle parameters; distinct = distinct (shape class, group classes, transform class, "
          "dims, batch, storage, parameters); non-trivial = the transform moves at least one point and (the shape has a "
          "landmark group or structure beyond points)",
-    partial=["'the transform is not modified' is a contract on _apply in the model (f is a pure function parameter; the "
-             "heap theorems then show that NO existing cell is written, the transform's included); on the real code it "
+    partial=["'the transform is not modified' is a contract on _apply in the model (f is a function parameter that may "
+             "raise; the heap theorems then show that NO existing cell is written, the transform's included, whether "
+             "the call returns or raises); on the real code it "
              "is decided by the deep digest of the transform before/after on every case and by the regenerated "
              "obligation no_other_writes on every run (the CachedPWA memo attributes _applied_points/_iab are "
              "excluded: that the memo is unobservable is C09)",
-             "heap level: success of the call (apply_succeeds) is proved for object graphs that are finite, of "
+             "heap level: success of the call (apply_succeeds, h_apply_succeeds) is proved for object graphs that are "
+             "finite, of "
              "classes the method-resolution table lists and within the fuel (Python: recursion limit); that the real "
              "objects are such graphs is checked by the driver on every generated case (flag tot), not proved",
-             "batch_size <= 0 (ValueError from range / np.vstack) and WithDims with boolean masks, negative or "
-             "out-of-range indices (IndexError) are outside the documented domain and not modelled",
-             "piecewise-affine transforms are exercised in their domain only (outside it apply raises by design)"],
+             "WithDims on an array WITHOUT points: numpy checks the index against n_dims even when there are no rows; an "
+             "array is a list of rows in the model and has no width when it is empty, so there nothing is checked "
+             "(the correspondence uses arrays with points for the index errors)",
+             "piecewise-affine transforms outside their domain raise by design: there only 'nothing that existed is "
+             "written' is claimed (theorem h_apply_frame_any, oracle + driver on every run), not a result"],
     assumptions=["numpy computes the same floats for the same operation on equal arrays of equal shape (points of "
                  "apply(shape) are compared with apply(shape.points) at 1e-9 relative)"],
     design_ref="DESIGN.md section 6, C02")
@@ -160,6 +213,49 @@ THEOREMS = [
     "MenpoModel.C02.inplaceWrites_shape",
     "MenpoModel.C02.inplace_writes_in_table",
     "MenpoModel.C02.apply_writes_nothing_old",
+    # the methods as the SOURCE states them, value level (Props/C02Src.lean, Lemmas/C02Src.lean): what the methods
+    # translated from the source text on every run are proved equal to (GenProps/C02SrcV.lean)
+    "MenpoModel.C02.forLoopE_writeback",
+    "MenpoModel.C02.batched_loop_eq",
+    "MenpoModel.C02.mapShapeE_ok",
+    "MenpoModel.C02.vInplaceS_expected",
+    "MenpoModel.C02.vTransform_shape",
+    "MenpoModel.C02.vApply_shape",
+    "MenpoModel.C02.vApply_array",
+    "MenpoModel.C02.vApply_agrees",
+    "MenpoModel.C02.vApply_expected",
+    "MenpoModel.C02.applyBatchedE_pos",
+    "MenpoModel.C02.applyBatchedE_nonpos",
+    "MenpoModel.C02.mapShapeE_nonpos",
+    "MenpoModel.C02.apply_nonpos_batch",
+    "MenpoModel.C02.apply_nonpos_batch_array",
+    "MenpoModel.C02.chainFnE_ok",
+    "MenpoModel.C02.withDimsE_list_ok",
+    "MenpoModel.C02.withDimsE_index_error",
+    "MenpoModel.C02.withDimsE_mask_error",
+    "MenpoModel.C02.withDimsE_single",
+    "MenpoModel.C02.hom_plumbing",
+    "MenpoModel.C02.affine_plumbing",
+    # … heap level (Props/C02SrcH.lean): the source's `_transform` IS the model's `applyH`, on every heap
+    "MenpoModel.C02.hInplace_eq",
+    "MenpoModel.C02.hTransform_eq",
+    "MenpoModel.C02.hTransform_ok",
+    "MenpoModel.C02.hTransform_of_ok",
+    "MenpoModel.C02.h_apply_deep",
+    "MenpoModel.C02.h_apply_no_write",
+    "MenpoModel.C02.h_apply_result",
+    "MenpoModel.C02.h_apply_at_deep",
+    "MenpoModel.C02.h_apply_manager_deep",
+    "MenpoModel.C02.h_apply_succeeds",
+    "MenpoModel.C02.hRun_eq",
+    "MenpoModel.C02.h_run_refines",
+    "MenpoModel.C02.h_run_mutates_nothing",
+    # … "mutates nothing" when the call RAISES (Props/C02SrcE.lean): any closure, any outcome
+    "MenpoModel.C02.hLoop_frame",
+    "MenpoModel.C02.hSelf_frame",
+    "MenpoModel.C02.h_inplace_frame",
+    "MenpoModel.C02.h_apply_frame_any",
+    "MenpoModel.C02.h_apply_raise_intact",
 ]
 TOL = 1e-9
 SHAPES = extract_c02.SHAPES
@@ -1081,6 +1177,27 @@ def check_model(ctx, lines, pending):
             if not ok:
                 ctx.mismatch(op, "results of the model differ from the implementation: " + why, rp)
             continue
+        if op in ("applye", "wdims"):
+            outcome, toks = impl_toks
+            got = "ok" if reply[0] == "ok" else (reply[1] if len(reply) > 1 else "?")
+            if got != outcome:
+                ctx.mismatch(op, "the model says %r, the implementation %r (ok = returns; value / index = the exception "
+                                 "raised)" % (" ".join(reply[:6]), outcome), rp)
+                continue
+            if op == "applye":
+                flags = dict(x.split("=") for x in (reply[1:4] if got == "ok" else reply[2:5]))
+                want = {"changed": "0", "intact": "1", "agree": "1"} if got == "ok" else \
+                       {"heap": outcome, "changed": "0", "intact": "1"}
+                if flags != want:
+                    ctx.mismatch(op, "model flags %r, wanted %r (heap: outcome of the heap-level run; changed: cells written "
+                                     "below the old heap top, also when the call raises; intact: the input reads back)"
+                                 % (flags, want), rp)
+                    continue
+            if got == "ok":
+                ok, why = tokens_agree(reply[4:] if op == "applye" else reply[1:], toks)
+                if not ok:
+                    ctx.mismatch(op, "result of the model differs from the implementation: " + why, rp)
+            continue
         nflags = 4 if op == "apply-manager" else 7
         if len(reply) < nflags + 1 or reply[0] != "ok":
             ctx.mismatch(op, "model answered %r" % " ".join(reply[:8]), rp)
@@ -1214,6 +1331,25 @@ def directed(ctx, lines, pending):
                 ssp = {"cls": "PointCloud", "points": [], "n_dims": d, "groups": [["g", g], ["also-empty", empty]]}
                 ctx.count("zero-point-host:spec")
                 run_case(ctx, ssp, gen_transform_spec(rng, kind, d), batch, lines, pending, manager=True)
+    # a legal ZERO-POINT landmark group attached BEFORE, BETWEEN and AFTER non-empty groups, under a host of every class,
+    # 2-D and 3-D: the loop over the groups must neither stop at nor skip past the empty one (every later group moves)
+    zkinds = ["Translation", "Affine", "UniformScale", "TransformChain", "Similarity", "NonUniformScale"]
+    for ci, cls in enumerate(SHAPES):
+        for d in (2, 3):
+            for pos in (0, 1, 2):
+                ssp = gen_shape_spec(rng, cls, d, 0)
+                full = [gen_shape_spec(rng, SHAPES[(ci + pos + k) % len(SHAPES)], d, 0) for k in (0, 1)]
+                full[1]["groups"] = [["inner-empty", {"cls": "PointCloud", "points": [], "n_dims": d, "groups": []}],
+                                     ["inner", gen_shape_spec(rng, "PointCloud", d, 0)]]
+                grp = [["a", full[0]], ["b", full[1]]]
+                grp.insert(pos, ["empty-%d" % pos, {"cls": "PointCloud", "points": [], "n_dims": d, "groups": []}])
+                ssp["groups"] = grp
+                for node in spec_nodes(ssp):
+                    for key in ("store", "alias", "share_points"):
+                        node.pop(key, None)
+                ctx.count("zero-point-group:" + ["first", "middle", "last"][pos])
+                run_case(ctx, ssp, gen_transform_spec(rng, zkinds[(ci + d + pos) % len(zkinds)], d),
+                         [None, 2][(ci + pos) % 2], lines, pending, manager=(pos == 0))
     # boundary size: a host with ZERO points that still carries landmark groups (legal: an annotated but empty
     # template); the groups must move with the map exactly as on any other host
     import menpo.shape as ms
@@ -1247,6 +1383,157 @@ def directed(ctx, lines, pending):
                     ctx.check(digest(host) == before, site, "input-mutated", "zero-point host: input changed", rp)
                 except Exception as e:
                     ctx.fail(site, "raises", "zero-point host: apply raised %s: %s" % (type(e).__name__, e), rp)
+
+
+# ------------------------------------------------------------------------------- the error branches
+
+def _outcome(call):
+    """('ok', result) or (exception kind, None); kinds: value (ValueError), index (IndexError), else the class name"""
+    try:
+        return "ok", call()
+    except ValueError:
+        return "value", None
+    except IndexError:
+        return "index", None
+    except Exception as e:                                                          # noqa: BLE001
+        return type(e).__name__, None
+
+
+def error_branches(ctx, lines, pending):
+    """batch_size <= 0 and WithDims with negative / out-of-range indices, masks, a single integer: what the real code does
+    (returns / which exception) against the model's error branches (`applyBatchedE`, `withDimsE`, run through the
+    methods as the source states them: driver op `applye`), and — property (d) — the input and the transform are
+    unchanged also when the call raises"""
+    import numpy as np
+    from menpo.transform import WithDims
+    rng = ctx.rng
+    kinds = ["Affine", "Translation", "Similarity", "NonUniformScale", "Rotation", "UniformScale", "Homogeneous"]
+
+    def plain(cls, d, depth):
+        sp = gen_shape_spec(rng, cls, d, depth)
+        for node in spec_nodes(sp):
+            for key in ("store", "alias", "share_points"):
+                node.pop(key, None)
+        return sp
+
+    def run(ssp, t_build, kw, fe_toks, what):
+        """one call on the real code + one line for the model"""
+        shape, t = build_shape(ssp), t_build()
+        d_shape, d_t = digest(shape), digest(t, skip=CACHE_ATTRS)
+        outcome, res = _outcome(lambda: t.apply(shape, **kw))
+        site = "C02/apply-raises/" + ssp["cls"]
+        rp = {"shape": ssp, "how": what, "kwargs": kw, "outcome": outcome}
+        ctx.case(("error-branch", what, json.dumps(ssp, sort_keys=True)), nontrivial=True)
+        ctx.count("error-branch:%s:%s" % (what.split()[0].split("(")[0], outcome))
+        ctx.check(digest(shape) == d_shape, site, "input-mutated",
+                  "%s: the input shape changed although the call %s" % (what, "returned" if outcome == "ok" else "raised " + outcome), rp)
+        ctx.check(digest(t, skip=CACHE_ATTRS) == d_t, site, "transform-mutated",
+                  "%s: the transform changed although the call %s" % (what, "returned" if outcome == "ok" else "raised " + outcome), rp)
+        if lines is not None:
+            it = Interner()
+            stoks = enc_shape(build_shape(ssp), it)
+            b = kw.get("batch_size")
+            cid = "e%d" % len(lines)
+            lines.append("%s applye %d %s %s %s" % (cid, FUEL, "n" if b is None else "k %d" % b, " ".join(fe_toks),
+                                                  " ".join(stoks)))
+            pending[cid] = ("applye", (outcome, enc_shape(res, it) if outcome == "ok" else None), rp)
+
+    # (1) batch_size <= 0 (and one positive size through the same path), every shape class, 2-D and 3-D
+    for ci, cls in enumerate(SHAPES):
+        for d in (2, 3):
+            tsp = gen_transform_spec(rng, kinds[(ci + d) % len(kinds)], d)
+            ex = exact_F(tsp, build_transform(tsp))
+            if ex is None:
+                continue
+            for k in (0, -1, -3, 2):
+                ssp = plain(cls, d, 2)
+                run(ssp, lambda tsp=tsp: build_transform(tsp), {"batch_size": k}, ["tot"] + ex,
+                    "batch_size=%d %s" % (k, tsp["kind"]))
+    # … trees without a single point: nothing to batch, the call returns whatever the batch size
+    for d in (2, 3):
+        for k in (0, -2):
+            empty = lambda: {"cls": "PointCloud", "points": [], "n_dims": d, "groups": []}     # noqa: E731
+            ssp = empty()
+            inner = empty()
+            inner["groups"] = [["deep", empty()]]
+            ssp["groups"] = [["a", empty()], ["b", inner]]
+            tsp = gen_transform_spec(rng, "Affine", d)
+            run(ssp, lambda tsp=tsp: build_transform(tsp), {"batch_size": k},
+                ["tot"] + exact_F(tsp, build_transform(tsp)), "batch_size=%d all-empty" % k)
+    # (2) WithDims: negative indices, out of range, masks, a single integer — on bare arrays
+    for d in (2, 3):
+        for n_pts in (1, 4):
+            arr = np.array(gen_points(rng, n_pts, d), dtype=float)
+            variants = [("l", [-1, 0]), ("l", [0, d]), ("l", [-d - 1]), ("l", [d - 1, -d]), ("l", [0, 0, 1]),
+                        ("m", [True] + [False] * (d - 2) + [True]), ("m", [True] * (d - 1)), ("m", [False] * d + [True]),
+                        ("s", d - 1), ("s", -1), ("s", d), ("s", -d - 1)]
+            for tag, dims in variants:
+                py = np.array(dims) if tag == "m" else dims
+                outcome, res = _outcome(lambda: WithDims(py).apply(arr.copy()))
+                ctx.case(("withdims-array", d, n_pts, tag, str(dims)), nontrivial=True)
+                ctx.count("error-branch:withdims-array:" + outcome)
+                if lines is not None:
+                    dt = {"l": lambda: ["l", str(len(dims))] + [str(j) for j in dims],
+                          "m": lambda: ["m", str(len(dims))] + ["1" if b else "0" for b in dims],
+                          "s": lambda: ["s", str(dims)]}[tag]()
+                    cid = "w%d" % len(lines)
+                    lines.append("%s wdims %s %s" % (cid, " ".join(dt), " ".join(enc_arr(arr.tolist()))))
+                    pending[cid] = ("wdims", (outcome, enc_arr(np.asarray(res, dtype=float).tolist()) if outcome == "ok" else None),
+                                    {"how": "WithDims(%r).apply(%r)" % (dims, arr.tolist()), "outcome": outcome})
+    # (3) a transform that raises by design on SOME arrays: piecewise affine with a landmark group partly outside the
+    # triangulated domain.  The call raises part-way through the in-place pass on its private copy (the groups before
+    # the offending one have already been moved there); input shape, landmarks and transform must be as they were.
+    from menpo.transform.piecewiseaffine.base import TriangleContainmentError
+    for rep_ in range(2):
+        tsp = gen_transform_spec(rng, "PiecewiseAffine", 2)
+        inside = pwa_domain(tsp)
+        for cls in (SHAPES[rep_::4]):
+            ssp = gen_shape_spec(rng, cls, 2, 0, inside)
+            g_in = gen_shape_spec(rng, "PointCloud", 2, 0, inside)
+            g_out = gen_shape_spec(rng, "PointCloud", 2, 0, inside)
+            g_out["points"][-1] = [1000.0, -1000.0]                    # far outside every triangle
+            g_after = gen_shape_spec(rng, "TriMesh", 2, 0, inside)
+            ssp["groups"] = [["inside", g_in], ["partly-outside", g_out], ["after", g_after]]
+            for node in spec_nodes(ssp):
+                for key in ("store", "alias", "share_points"):
+                    node.pop(key, None)
+            shape, t = build_shape(ssp), build_transform(tsp)
+            d_shape, d_t = digest(shape), digest(t, skip=CACHE_ATTRS)
+            try:
+                t.apply(shape)
+                outcome = "ok"
+            except TriangleContainmentError:
+                outcome = "unknown"
+            except Exception as e:                                                  # noqa: BLE001
+                outcome = type(e).__name__
+            site = "C02/apply-raises/" + cls
+            rp = {"shape": ssp, "transform": tsp, "how": "piecewise affine, a landmark group partly outside the domain",
+                  "outcome": outcome}
+            ctx.case(("error-branch", "pwa-outside", json.dumps(ssp, sort_keys=True)), nontrivial=True)
+            ctx.count("error-branch:pwa-outside:" + outcome)
+            ctx.check(digest(shape) == d_shape, site, "input-mutated",
+                      "piecewise affine outside its domain: the input shape changed although the call raised", rp)
+            ctx.check(digest(t, skip=CACHE_ATTRS) == d_t, site, "transform-mutated",
+                      "piecewise affine outside its domain: the transform changed although the call raised", rp)
+            if lines is not None:
+                it = Interner()
+                fresh = build_shape(ssp)
+                tab = []
+                for a in all_arrays(fresh):
+                    oc, r_ = _outcome(lambda a=a: build_transform(tsp).apply(np.array(a)))
+                    tab.append(enc_arr(np.asarray(a, dtype=float).tolist()) +
+                               (["o"] + enc_arr(np.asarray(r_, dtype=float).tolist()) if oc == "ok" else ["x"]))
+                cid = "e%d" % len(lines)
+                lines.append("%s applye %d n tabE %d %s %s" % (cid, FUEL, len(tab), " ".join(x for t_ in tab for x in t_),
+                                                            " ".join(enc_shape(fresh, it))))
+                pending[cid] = ("applye", (outcome, None), rp)
+    # … and on shapes: the IndexError leaves the input as it was; negative in-range indices select from the end
+    for ci, cls in enumerate(SHAPES):
+        d = 2 + ci % 2
+        for dims in ([0, d], [-1, 0], [-d - 2, 0]):
+            ssp = plain(cls, d, 1)
+            run(ssp, lambda dims=dims: WithDims(dims), {}, ["dimsE", "l", str(len(dims))] + [str(j) for j in dims],
+                "WithDims(%r)" % (dims,))
 
 
 # ------------------------------------------------------------------------------- histories on shared objects
@@ -1597,6 +1884,23 @@ def measure_writes(seed=0):
     return [(n, writes[n]) for n in order], sorted(set(others))
 
 
+GEN_THEOREMS_V = ["MenpoModel.C02.GenProps." + t for t in (
+    "src_n_groups_eq", "src_landmarks_eq", "src_has_landmarks_eq", "src_shape_inplace_eq", "src_shape_self_eq",
+    "src_pc_self_eq", "src_lm_inplace_eq", "src_t_inplace_eq", "src_t_transform_eq", "src_apply_batched_eq",
+    "src_apply_eq", "src_apply_default", "srcMethods_eq", "src_chain_apply_eq", "src_withdims_apply_eq",
+    "src_affine_linear_eq", "src_affine_translation_eq", "src_hom_apply_eq", "src_affine_apply_eq",
+    "src_dispatch_eq", "src_apply_agrees", "src_apply_expected", "src_apply_class_points_extra", "src_apply_landmarks",
+    "src_apply_array_agrees", "src_apply_nonpos_batch", "src_apply_raises")]
+
+
+GEN_THEOREMS_H = ["MenpoModel.C02.GenProps." + t for t in (
+    "srcH_n_groups_eq", "srcH_landmarks_eq", "srcH_has_landmarks_eq", "srcH_shape_inplace_eq", "srcH_shape_self_eq",
+    "srcH_pc_self_eq", "srcH_lm_inplace_eq", "srcH_t_inplace_eq", "srcH_t_transform_eq", "srcHMethods_eq",
+    "srcH_dispatch_eq", "srcH_transform_is_applyH", "srcH_apply_deep", "srcH_apply_no_write", "srcH_apply_at_deep",
+    "srcH_apply_manager_deep", "srcH_apply_succeeds", "srcH_run_mutates_nothing", "srcH_apply_frame_any",
+    "srcH_apply_raise_intact")]
+
+
 def generated(ctx):
     measured = measure_writes()
     common.build_generated(ctx, extract_c02.lean_files(measured), extract_c02.TARGETS, extract_c02.N_OBLIGATIONS)
@@ -1604,12 +1908,32 @@ def generated(ctx):
     ctx.notes["dispatch_table"] = {n: [None if s is None else s.__name__ for s in sups] for n, sups in rows}
     ctx.notes["inplace_writes_measured"] = {n: w for n, w in measured[0]}
     ctx.notes["other_writes_measured"] = measured[1]
+    # the methods behind Transform.apply, TRANSLATED from the source text of the working tree (harness/trans_c02.py) and
+    # proved equal to the hand-written ones the theorems are about (GenProps/C02SrcV.lean)
+    from . import trans_c02
+    ctx.trusted += ["harness/py2lean2.py + harness/py2lean2x.py + harness/trans_c02.py (source-to-Lean translator and the "
+                    "C02 vocabulary: which Lean term a Python expression stands for) and the resolvers vApply / hTransform "
+                    "of Core/C02Src.lean, Core/C02SrcH.lean (Python's method lookup over the regenerated table)",
+                    "harness/extract_c02.py (method-resolution / attribute-kind / attribute-write tables from live objects)"]
+    files, why = trans_c02.value_files()
+    ok = common.build_generated(ctx, files, trans_c02.TARGETS_V, len(GEN_THEOREMS_V))
+    ctx.notes["translated_from_source"] = {"value_level": trans_c02.TRANSLATED_V, "untranslatable": why}
+    hfiles, hwhy = trans_c02.heap_files()
+    okh = common.build_generated(ctx, hfiles, trans_c02.TARGETS_H, len(GEN_THEOREMS_H))
+    ctx.notes["translated_from_source"]["heap_level"] = trans_c02.TRANSLATED_H
+    ctx.notes["translated_from_source"]["untranslatable_heap_level"] = hwhy
+    if ok and okh:
+        # the obligations hold: their proofs are audited like the property theorems
+        ax = common.axiom_audit(PROP + "gen", [trans_c02.TARGETS_V[1], trans_c02.TARGETS_H[1]],
+                                GEN_THEOREMS_V + GEN_THEOREMS_H)
+        ctx.notes["generated_theorems_audited"] = {k.split(".")[-1]: v for k, v in sorted(ax.items())}
 
 
 def search(ctx):
     """directed search on the real code (oracle only) after a broken tie: every class of the table, many more draws"""
     before = ctx.evaluations
     directed(ctx, None, None)
+    error_branches(ctx, None, None)
     histories(ctx, 12, None, None)
     explore(ctx, 4, None, None)
     ctx.searched += ctx.evaluations - before
@@ -1620,6 +1944,7 @@ def run(ctx):
     common.prepare_lean(ctx, PROP, IMPORTS, THEOREMS, generated=generated)
     lines, pending = [], {}
     directed(ctx, lines, pending)
+    error_branches(ctx, lines, pending)
     histories(ctx, ctx.n(6, 60), lines, pending)
     explore(ctx, ctx.n(4, 40), lines, pending, model_share=ctx.n(1.0, 0.5))
     check_model(ctx, lines, pending)
@@ -1640,8 +1965,8 @@ def replay(ctx, path):
         for op, text, _ in ctx.mismatches:
             print("model/implementation: %s: %s" % (op, text))
         return ctx.finish(search)
-    if "shape" not in rp:
-        print("no single recorded case (broken obligation or directed case): re-running the quick check with seed %r"
+    if "shape" not in rp or "transform" not in rp or rp.get("outcome") is not None:
+        print("no single recorded case (broken obligation, directed or error-branch case): re-running the quick check with seed %r"
               % data.get("seed"))
         return run(common.Ctx(PROP, "quick", int(data.get("seed", 0))))
     common.prepare_lean(ctx, PROP, IMPORTS, THEOREMS, generated=generated)
